@@ -33,6 +33,23 @@ func C05(c *Ctx) int {
 	if err := c.TokenGameRound(fs, ps, RoundOpts{Label: "table", MaxSteps: 12, MaxPerProg: capN}); err != nil {
 		c.Infraf("%v", err)
 	}
-	c.Extra["programs"] = len(ps)
+	// the same fork/join pairs re-entered through a loop (TLC random simulation of the game)
+	var loops []*prog.Program
+	for k := 1; k <= 3; k++ {
+		for dpos := -1; dpos <= k; dpos += 2 {
+			loops = append(loops, gen.GatewayTableLoop("or", k, dpos, 1, -1, true))
+			if k >= 2 {
+				loops = append(loops, gen.GatewayTableLoop("or", k, dpos, 1, 0, true))
+			}
+		}
+	}
+	sim := 500
+	if !c.Quick() {
+		sim = 5000
+	}
+	if err := c.TokenGameRound(fs, loops, RoundOpts{Label: "reentry", MaxSteps: 24, Simulate: sim}); err != nil {
+		c.Infraf("%v", err)
+	}
+	c.Extra["programs"] = len(ps) + len(loops)
 	return c.Finish("model_checking", "inclusive fork/join pairs with 1..4 conditional branches, default absent or at every position, optionally one branch ending before the join; TLC enumerates every truth assignment and every order in which the activated branches finish; replayed on the real engine and validated by TokenGameTrace (join never early, exactly one release per activation, no waiting for non-activated branches, no-flow error)", !c.Quick(), fs)
 }
